@@ -950,7 +950,13 @@ impl<'a, R: CharRead> Parser<'a, R> {
                 self.shift(Token::String(string), 0, TERM);
             }
             Token::Literal(Literal::Integer(n)) => {
-                self.negate_number(n, negate_int_rc, Literal::Integer)
+                // -N for the bignum literal N = 2^55 is the smallest small integer:
+                // keep integers canonical
+                self.negate_number(n, negate_int_rc, |n| {
+                    Fixnum::build_with_checked(&*n)
+                        .map(Literal::Fixnum)
+                        .unwrap_or(Literal::Integer(n))
+                })
             }
             Token::Literal(Literal::Rational(n)) => {
                 self.negate_number(n, negate_rat_rc, Literal::Rational)
